@@ -19,7 +19,6 @@ func VerifHarness_C05_lexer() {
 	// each state function consumes at least one rune or ends the stream
 	vUnwind(2*nb + 4)
 	toks, err := LexInput(r)
-	vUnwind(64)
 	vAssert("lexer-returns-tokens", err == nil && len(toks) >= 1)
 	if len(toks) == 0 {
 		return
@@ -58,7 +57,6 @@ func VerifHarness_C05_soup() {
 	// consumes a token or ends; FOR passes are capped at 13 by CompileWarrior
 	vUnwind(6*n + 40)
 	w, err := CompileWarrior(vTextReader(text), cfg)
-	vUnwind(64)
 	if err != nil {
 		vAssert("error-xor-warrior", w.Code == nil && w.Start == 0 && w.Name == "")
 		vReach("rejected")
